@@ -152,10 +152,27 @@ func classify(c crash) string {
 		return "c25-csv-nonscalar"
 	case strings.Contains(m, "nil pointer") && c.has("table_valued_functions/poll.go"):
 		return "c21-poll-nil"
+	case strings.Contains(m, "nil pointer") && c.limitExprCrash():
+		return "c07-limit-column"
 	case c.has("execution/expressions.go") && (strings.Contains(m, "index out of range") || strings.Contains(m, "nil pointer") || strings.Contains(m, "unreachable")):
 		return "c13-fixlayout"
 	}
 	return ""
+}
+
+// limitExprCrash: the innermost repository frames are expression evaluation, called straight from where a LIMIT
+// expression is evaluated without a record (Limit.Run, OrderSensitiveTransform.Run, cmd/root.go)
+func (c crash) limitExprCrash() bool {
+	for _, f := range c.files {
+		switch f {
+		case "execution/expressions.go", "functions/functions.go":
+			continue
+		case "execution/nodes/limit.go", "execution/nodes/order_sensitive_transform.go", "cmd/root.go":
+			return true
+		}
+		return false
+	}
+	return false
 }
 
 func (c crash) key() string {
@@ -205,6 +222,28 @@ func writeInputs(dir string, r *lib.Rng) error {
 		}
 	}
 	os.WriteFile(filepath.Join(dir, "j.json"), []byte(b.String()), 0o644)
+	// k.json: list / object / nullable fields that are empty ([], {}, null, [[],[]]) in every row of the 100-row schema
+	// preview and filled afterwards (no element / field type can be inferred from the preview)
+	b.Reset()
+	for k := 0; k < 140; k++ {
+		if k < 110 {
+			b.WriteString(fmt.Sprintf("{\"id\": %d, \"tags\": [], \"m\": [[], []], \"o\": {}, \"z\": null, \"lo\": [{}]}\n", k))
+		} else {
+			b.WriteString(fmt.Sprintf("{\"id\": %d, \"tags\": [\"x\", \"y%d\"], \"m\": [[], [1.5]], \"o\": {\"x\": %d}, \"z\": %s, \"lo\": [{\"q\": [1]}]}\n",
+				k, k, k, []string{"5", "\"s\"", "[1]", "{\"w\": 1}"}[k%4]))
+		}
+	}
+	os.WriteFile(filepath.Join(dir, "k.json"), []byte(b.String()), 0o644)
+	// k2.json: the same with the first filled row exactly at the preview boundary and a single filled row at the very end
+	b.Reset()
+	for k := 0; k < 131; k++ {
+		if k == 100 || k == 130 {
+			b.WriteString(fmt.Sprintf("{\"id\": %d, \"tags\": [1], \"m\": [[2]], \"o\": {\"x\": [3]}, \"z\": [], \"lo\": []}\n", k))
+		} else {
+			b.WriteString(fmt.Sprintf("{\"id\": %d, \"tags\": [], \"m\": [], \"o\": {}, \"z\": null, \"lo\": []}\n", k))
+		}
+	}
+	os.WriteFile(filepath.Join(dir, "k2.json"), []byte(b.String()), 0o644)
 	os.WriteFile(filepath.Join(dir, "l.lines"), []byte("first\n\nthird line\n日本\n"+strings.Repeat("y", 300)+"\nlast"), 0o644)
 	// fixtures of the scenario corpus
 	fix := filepath.Join(dir, "fixtures")
@@ -395,6 +434,9 @@ func (g gen) any(d int, t string) string {
 		if t == "j" {
 			return g.pick("j.l", "j.o", "j.m", "j.o->x", "j.l[0]", "j.l[-1]", "j.l[9223372036854775807]", "j.m->z", "j.o->*")
 		}
+		if t == "k" {
+			return g.pick("k.tags", "k.m", "k.o", "k.z", "k.lo", "k.tags[0]", "k.m[1]", "k.m[1][0]", "k.o->x", "k.lo[0]", "k.id", "len(k.tags)", "k.o->*")
+		}
 		return "NULL"
 	}
 	return "(" + g.any(d-1, t) + ", " + g.any(d-1, t) + ")" // tuple
@@ -407,6 +449,9 @@ func (g gen) table() (string, string) {
 	case 3, 4:
 		return "j.json j", "j"
 	case 5:
+		if g.r.Bool() {
+			return g.pick("k.json k", "k2.json k"), "k"
+		}
 		return g.pick("small.csv e", "empty.csv e"), "e"
 	case 6:
 		return "range(start=>" + g.intE(1, "") + ", end=>" + g.pick("3", "0", "-1", g.intE(1, "")) + ") r", "r"
@@ -446,6 +491,8 @@ func (g gen) query() string {
 			return g.pick("j.n", "j.s", "j.l", "j.o", "j.m", "j.t")
 		case "r":
 			return "r.i"
+		case "k":
+			return g.pick("k.id", "k.tags", "k.m", "k.o", "k.z", "k.lo")
 		}
 		return g.pick("l.text", "l.number")
 	}
@@ -506,7 +553,7 @@ func (g gen) query() string {
 		return "SELECT " + g.pick("*", t+"."+kcol[t], a2+"."+kcol[t2]+", "+g.any(1, t)) + " FROM " + from + " " + g.pick("JOIN", "LEFT JOIN", "RIGHT JOIN", "OUTER JOIN", "LOOKUP JOIN") + " " + from2 + " ON " + on + g.pick("", " LIMIT 3")
 	case 7: // subqueries
 		return g.pick(
-			"SELECT q.x FROM (SELECT "+g.any(2, t)+" AS x FROM "+from+") q"+g.pick("", " ORDER BY q.x", " LIMIT 2", " WHERE q.x IS NOT NULL"),
+			"SELECT q.x FROM (SELECT "+g.any(2, t)+" AS x FROM "+from+g.pick("", " LIMIT "+g.any(1, t), " LIMIT "+col())+") q"+g.pick("", " ORDER BY q.x", " LIMIT 2", " WHERE q.x IS NOT NULL", " LIMIT q.x", " LIMIT nosuch", " LIMIT 1.5"),
 			"SELECT "+col()+", (SELECT "+g.any(1, "")+" FROM range(start=>0, end=>"+g.pick("0", "2", "-1")+") r) AS sub FROM "+from+" LIMIT 3",
 			"WITH w AS (SELECT "+g.any(1, t)+" AS x FROM "+from+") SELECT * FROM w w"+g.pick("", " ORDER BY w.x DESC"),
 			"SELECT "+col()+" FROM "+from+" WHERE "+g.intE(1, t)+" IN (SELECT r.i FROM range(start=>0, end=>3) r)",
@@ -518,18 +565,56 @@ func (g gen) query() string {
 				"SELECT j.n FROM (SELECT j.n AS n, unnest(j.l) AS u FROM j.json j) j", "SELECT j.o->* FROM j.json j", "SELECT j.o->x, j.o->nosuch FROM j.json j",
 				"SELECT j.l["+g.intE(1, "")+"] FROM j.json j", "SELECT j.m->z FROM j.json j", "SELECT COUNT(*) FROM (SELECT unnest(j.l) AS u FROM j.json j) q")
 		}
+		if t == "k" {
+			return g.pick("SELECT k.id, unnest(k.tags) AS u FROM "+from, "SELECT unnest(unnest(k.m)) FROM "+from, "SELECT k.id, k.tags, k.m, k.o, k.z, k.lo FROM "+from,
+				"SELECT COUNT(*), array_agg(k.tags) FROM "+from, "SELECT * FROM "+from+" WHERE k.id >= 100.0", "SELECT DISTINCT k.tags, k.o FROM "+from) + g.tail(func() string { return "k.id" })
+		}
 		return "SELECT unnest(" + g.any(1, t) + ") FROM " + from
 	}
 	return "SELECT " + g.any(3, t) + ", " + g.any(3, t) + " FROM " + from + " WHERE " + g.boolE(3, t) + g.tail(col)
 }
 
+// tail: ORDER BY and LIMIT of the outermost query.  Both take expressions from the same grammar as everything else:
+// columns, unknown names and functions, ill-typed operators, non-integer, negative, NULL, nested expressions.
 func (g gen) tail(col func() string) string {
 	s := ""
 	if g.r.Chance(1, 2) {
-		s += " ORDER BY " + col() + g.pick("", " DESC", " ASC")
+		n := 1 + g.r.Intn(2)
+		keys := make([]string, n)
+		for i := range keys {
+			switch g.r.Intn(6) {
+			case 0, 1:
+				keys[i] = col()
+			case 2:
+				keys[i] = g.any(2, "")
+			case 3:
+				keys[i] = g.pick("nosuchcolumn", "nosuchfn("+col()+")", col()+" + 'a'", "1", "NULL", "("+col()+", 1)")
+			default:
+				keys[i] = g.pick("abs", "len", "upper", "int", "string") + "(" + col() + ")"
+			}
+			keys[i] += g.pick("", " DESC", " ASC")
+		}
+		s += " ORDER BY " + strings.Join(keys, ", ")
 	}
 	if g.r.Chance(1, 2) {
-		s += " LIMIT " + g.pick("0", "1", "3", "-1", "-1", "9223372036854775807", "-9223372036854775807", "1 + 1", "'a'", "NULL")
+		var lim string
+		switch g.r.Intn(8) {
+		case 0, 1:
+			lim = g.pick("0", "1", "3", "-1", "9223372036854775807", "-9223372036854775807")
+		case 2:
+			lim = col() // a real column
+		case 3:
+			lim = g.pick("nosuchcolumn", "nosuchfn(2)", "1 + 'a'", "'a'", "NULL", "1.5", "-0.0", "true", "INTERVAL 1 SECOND", "(1, 2)")
+		case 4:
+			lim = g.intE(2, "")
+		case 5:
+			lim = g.any(2, "")
+		case 6:
+			lim = g.pick("abs", "len", "int") + "(" + col() + ")"
+		default:
+			lim = g.pick("(SELECT r.i FROM range(start=>1, end=>2) r)", "1 + 1", "2 * "+col(), "COALESCE(NULL, 2)", "int('3')", "int('x')", "1 / 0")
+		}
+		s += " LIMIT " + lim
 	}
 	return s
 }
@@ -600,7 +685,7 @@ func (g gen) mutate(q string) string {
 			case 3:
 				toks[i] = g.pick("abs", "sqrt", "substr", "len", "int", "float", "string", "panic", "count", "sum", "unnest", "COALESCE", "position", "reverse", "time_from_unix")
 			case 4:
-				toks[i] = g.pick("fixtures/objects.json", "e.csv", "j.json", "small.csv", "empty.json", "l.lines", "fixtures/test.json")
+				toks[i] = g.pick("fixtures/objects.json", "e.csv", "j.json", "k.json", "k2.json", "small.csv", "empty.json", "l.lines", "fixtures/test.json")
 			default:
 				toks[i] = g.pick("NULL", "0", "-1", "''", "(", ")", ",", "DISTINCT", "LIMIT 0", "ORDER BY 1", "GROUP BY 1")
 			}
@@ -621,7 +706,7 @@ type cliCase struct {
 }
 
 func cliSearch(cf *lib.CaseFile, rng *lib.Rng, f lib.Flags) {
-	n := f.Cases(330, 4000)
+	n := f.Cases(360, 4000)
 	work, err := os.MkdirTemp("", "c07cli")
 	if err != nil {
 		fmt.Fprintln(os.Stderr, err)
@@ -709,7 +794,7 @@ func cliSearch(cf *lib.CaseFile, rng *lib.Rng, f lib.Flags) {
 			class := classify(cr)
 			// the replay carries the input files the query names (they do not depend on the seed)
 			files := map[string]string{}
-			for _, name := range []string{"e.csv", "j.json", "small.csv", "empty.csv", "empty.json", "l.lines"} {
+			for _, name := range []string{"e.csv", "j.json", "k.json", "k2.json", "small.csv", "empty.csv", "empty.json", "l.lines"} {
 				if strings.Contains(c.query, name) {
 					if content, err := os.ReadFile(filepath.Join(data, name)); err == nil {
 						if len(content) > 6000 {
